@@ -142,7 +142,7 @@ def main(argv=None):
             undec_ob.append(nm)
     known = load_known()
     kf = [f for f in known.get("findings", []) if f["property"] == pid]
-    known_ob = {f["obligation"]: f for f in kf}
+    known_ob = {f["obligation"]: f for f in kf if "obligation" in f}
     new_fail = [nm for nm in failed if nm not in known_ob]
     os.makedirs(os.path.join(VERIF, "evidence"), exist_ok=True)
     os.makedirs(os.path.join(VERIF, "replays"), exist_ok=True)
